@@ -25,10 +25,6 @@ instance (ops : List Op) : Decidable (Differs ops) := by unfold Differs; infer_i
 
 theorem refutes {ops : List Op} (h : Differs ops) : ¬ C18_full := fun hf => h (hf H0 0 ops)
 
-/-- fs:head-without-etag -/
-theorem C18_counterexample_head_without_etag :
-    Differs [.createBucket bka, .putObject bka kA [1] none {} none, .headObject bka kA] := by decide
-
 /-- fs:stale-metadata-after-copy -/
 theorem C18_counterexample_stale_metadata_after_copy :
     Differs [.createBucket bka, .putObject bka kA [1] mdV {} none, .putObject bka kB [2] none {} none,
@@ -96,7 +92,7 @@ theorem C18_counterexample_complete_missing_part :
 (1d0f501 put_object / create_multipart_upload require the bucket; b01fec8 put_object without metadata removes the old
 metadata file; ca1e912 copy onto itself keeps the object; d6f1a3c head_object tells a missing key from a missing bucket;
 dbc4627 delete_bucket refuses a bucket that holds objects; fe75a0e delete_object of a key that does not exist succeeds; 391a940 (and fe75a0e for delete_object) an object in a bucket
-that does not exist is `NoSuchBucket`, not `NoSuchKey`; 902249e delete_objects on a bucket that does not exist is `NoSuchBucket`;
+that does not exist is `NoSuchBucket`, not `NoSuchKey`; 902249e delete_objects on a bucket that does not exist is `NoSuchBucket`; 3751248 head_object returns the ETag;
 b89afe2 ranged reads: covered for all ranges by `C18_get_refines_partial` and `C18_range_check`, the kernel cannot
 evaluate the decimal formatter of `Content-Range`) -/
 
@@ -187,6 +183,14 @@ theorem C18_fixed_delete_objects_in_missing_bucket :
       [some .NoSuchBucket, some .NoSuchBucket, some .NoSuchBucket, some .InvalidArgument, none, none, none, none] := by
   decide
 
+/-- was fs:head-without-etag (the witness history of `corpus/fs.txt`): head_object answers with the ETag put_object and
+    get_object report, on both sides -/
+theorem C18_fixed_head_without_etag :
+    Same [.createBucket bka, .putObject bka kA [1] mdV {} none, .headObject bka kA, .getObject bka kA none] ∧
+    (run H0 0 {} [.createBucket bka, .putObject bka kA [1] mdV {} none, .headObject bka kA, .getObject bka kA none]).2 =
+      [.ok, .put (some (etagOf H0 [1])) {}, .head 1 (some (etagOf H0 [1])) [([109], [118])],
+       .get [1] 1 none (some (etagOf H0 [1])) [([109], [118])] {}] := by decide
+
 /-- was fs:suffix-range-longer-than-object / fs:suffix-range-huge-panics: the model no longer fails or panics (the answer
     itself is compared by `C18_get_refines_partial`) -/
 theorem C18_fixed_suffix_ranges :
@@ -195,6 +199,6 @@ theorem C18_fixed_suffix_ranges :
       (fun r => r != .panic && r != .err .InternalError) = true := by decide
 
 /-- the unrestricted statement is false of the model (hence, by the correspondence runs, of the backend) -/
-theorem C18_full_false : ¬ C18_full := refutes C18_counterexample_head_without_etag
+theorem C18_full_false : ¬ C18_full := refutes C18_counterexample_list_max_keys
 
 end S3V.C18
